@@ -10,7 +10,7 @@
   (`zero_input_legacy_ambiguous`); the legacy form is therefore covered for ≥ 1 input.
   F04b (fixed): the fetcher theorem is about the code that compares `tx.id()` with the request.
 -/
-import Buidl.Proofs.Tx
+import Buidl.Proofs.TxParse
 namespace Buidl.Props.C04
 open Buidl Buidl.Script Buidl.Tx
 
@@ -276,5 +276,94 @@ theorem fetch_failure_leaves_cache (hash256 : Bytes → Bytes) (c : FetchCache) 
     | none => rfl
     | some tx => rw [hf] at h; cases h
   · rfl
+
+
+/-! ## arbitrary byte strings (malformed, truncated, non-minimally encoded streams) -/
+
+/-- **The script parser never runs out of fuel**: `Script.parse(raw=…)` is modelled with fuel `len + 1`; any
+    two fuels above the number of remaining bytes give the same result, so the fuel is no restriction -/
+theorem script_parse_fuel_independent (f1 f2 : Nat) (s : Bytes) (acc : List Cmd) (h1 : s.length < f1) (h2 : s.length < f2) :
+    parseLoop f1 s acc = parseLoop f2 s acc :=
+  parseLoop_fuel f1 f2 s acc h1 h2
+
+/-- whatever the bytes, an opcode the parser returns is 0 or 79..255 — never a push opcode -/
+theorem script_parse_opcodes (raw : Bytes) : ∀ c ∈ (parseRaw raw).cmds, OpOK c :=
+  parseRaw_ops raw
+
+/-- `raw` is set only to the (non-empty) input itself, when a push ran past the end -/
+theorem script_parse_raw (raw : Bytes) : (parseRaw raw).raw = none ∨ ((parseRaw raw).raw = some raw ∧ raw ≠ []) :=
+  parseRaw_raw raw
+
+/-- **Exactly which parsed scripts are fixed points of serialise ∘ parse.**  For the parse of ANY bytes
+    (shorter than 2^63): it is a fixed point if it carries `raw`, or no data element is empty or longer than
+    520 bytes — this covers every non-minimal push encoding (OP_PUSHDATA1/2/4 where a shorter form exists),
+    which re-serialises minimally and parses to the same commands … -/
+theorem parsed_script_fixpoint (raw : Bytes) (hl : raw.length < 2 ^ 63) (hr : Reencodable (parseRaw raw)) :
+    ScriptFix (parseRaw raw) :=
+  parsedScript_fix ⟨raw, hl, rfl⟩ hr
+
+/-- … and it is not one otherwise: an empty data element (only reachable as `4c 00`, `4d 00 00`, …) reads
+    back as OP_0 (N04c), a data element of more than 520 bytes is refused by the serialiser -/
+theorem parsed_script_not_fixpoint (raw : Bytes) (hnone : (parseRaw raw).raw = none)
+    (hbad : ∃ c ∈ (parseRaw raw).cmds, ¬ PushOK c) : ¬ ScriptFix (parseRaw raw) :=
+  parsedScript_not_fix raw hnone hbad
+
+/-- every parser leaves a suffix of its input unread (nothing is invented, nothing re-ordered) and refuses the
+    empty stream -/
+theorem parsers_leave_suffix :
+    (∀ (s r : Bytes) (sc : Script), Script.parse s = some (sc, r) → r <:+ s ∧ s ≠ []) ∧
+    (∀ (s r : Bytes) (w : Witness), Witness.parse s = some (w, r) → r <:+ s) ∧
+    (∀ (s r : Bytes) (i : TxIn), TxIn.parse s = some (i, r) → r <:+ s) ∧
+    (∀ (s r : Bytes) (o : TxOut), TxOut.parse s = some (o, r) → r <:+ s) ∧
+    (∀ (s r : Bytes) (t : Tx), Tx.parse s = some (t, r) → r <:+ s) :=
+  ⟨fun _ _ _ h => (script_parse_inv h).2, fun _ _ _ h => (witness_parse_inv h).2,
+   fun _ _ _ h => (txin_parse_inv h).2.2, fun _ _ _ h => (txout_parse_inv h).2.2, fun _ _ _ h => (parse_inv h).2⟩
+
+/-- every witness the parser returns — from any bytes — is a fixed point: it serialises, and the bytes parse
+    back to exactly it -/
+theorem witness_parse_sound (s r : Bytes) (w : Witness) (h : Witness.parse s = some (w, r)) :
+    ∃ e, w.serialize = some e ∧ ∀ rest, Witness.parse (e ++ rest) = some (w, rest) := by
+  obtain ⟨wf, _⟩ := witness_parse_inv h
+  obtain ⟨e, he⟩ := witness_serialize_isSome wf
+  exact ⟨e, he, fun rest => witness_parse_serialize rest wf he⟩
+
+/-- **Parse soundness** (what a fetcher / PSBT consumer relies on).  For ANY byte string `b`: if
+    `Tx.parse b = (t, rest)` then `b = consumed ++ rest`; every field of `t` is within its wire width
+    (`ParsedTx`: 32-byte outpoint hashes, 4-byte indices / sequences / version / locktime, 8-byte amounts,
+    counts and lengths the codec can write); and if `t` is `Reenc` — a decidable condition on `t` alone: no
+    empty or > 520-byte data element in a script without `raw`, not the zero-input legacy form — then `t`
+    serialises and its serialisation followed by anything parses back to exactly `t`.  Non-minimal varints,
+    non-minimal pushes, short reads of a push (kept in `raw`), short reads of witness items and of the
+    locktime are all inside this statement: they change `consumed`, not the fixed-point property. -/
+theorem tx_parse_sound (b rest : Bytes) (t : Tx) (h : Tx.parse b = some (t, rest)) :
+    (∃ consumed, b = consumed ++ rest) ∧ ParsedTx t ∧
+    (Reenc t → ∃ e, t.serialize = some e ∧ ∀ r, Tx.parse (e ++ r) = some (t, r)) :=
+  parse_sound h
+
+/-- **Truncation.**  Python's `read(n)` returns fewer bytes silently, so a strict prefix `p` of a valid
+    serialisation `e` CAN be accepted (`truncated_locktime_accepted`).  What holds: whatever `Tx.parse p`
+    returns does not stand for `p` — it never re-serialises to `p` (for `Reenc` results, the only ones
+    that re-parse to themselves) -/
+theorem tx_truncation (t : Tx) (e p x : Bytes) (wf : TxWF t) (he : t.serialize = some e) (hpx : e = p ++ x) (hx : x ≠ [])
+    (t' : Tx) (r : Bytes) (hp : Tx.parse p = some (t', r)) (hr : Reenc t') : t'.serialize ≠ some p :=
+  truncation t e p x wf he hpx hx t' r hp hr
+
+/-- serialisations of well-formed transactions are prefix-free: none is a strict prefix of another -/
+theorem serialization_prefix_free (t₁ t₂ : Tx) (e₁ e₂ x : Bytes) (wf₁ : TxWF t₁) (wf₂ : TxWF t₂)
+    (h₁ : t₁.serialize = some e₁) (h₂ : t₂.serialize = some e₂) (hx : e₂ = e₁ ++ x) : x = [] ∧ canonTx t₁ = canonTx t₂ := by
+  have a := parse_serialize x wf₁ h₁
+  have b := parse_serialize [] wf₂ h₂
+  rw [List.append_nil, hx, a] at b
+  simp only [Option.some.injEq, Prod.mk.injEq] at b
+  exact ⟨b.2, b.1⟩
+
+/-- the silent short read, concretely: this 1-input 1-output legacy transaction with its last two locktime
+    bytes cut off still parses — to a transaction with another locktime, leaving nothing unread -/
+theorem truncated_locktime_accepted :
+    ∃ (e p : Bytes) (t t' : Tx), TxWF t ∧ t.serialize = some e ∧ p = e.take (e.length - 2) ∧
+      Tx.parse p = some (t', []) ∧ t'.locktime ≠ t.locktime ∧ t'.serialize ≠ some p := by
+  refine ⟨_, _, ⟨1, [⟨List.replicate 32 7, 0, ⟨[], none⟩, 0xFFFFFFFF, ⟨[]⟩, none, none⟩], [⟨5, ⟨[.op 0x51], none⟩⟩], 0x01020304, false⟩,
+    ⟨1, [⟨List.replicate 32 7, 0, ⟨[], none⟩, 0xFFFFFFFF, ⟨[]⟩, none, none⟩], [⟨5, ⟨[.op 0x51], none⟩⟩], 0x0304, false⟩,
+    by decide, rfl, rfl, ?_, by decide, ?_⟩ <;> decide +kernel
 
 end Buidl.Props.C04
